@@ -495,6 +495,11 @@ func (cg *caseGen) rec(cx ectx) (*pvcase.Expr, bool) {
 	for i := 0; i < nl; i++ {
 		labels = append(labels, pickStr(cg.r, throwLabels))
 	}
+	if len(cx.recs) > 0 && cg.chance(0.4) {
+		// a handler for a label that an ENCLOSING recovery expression handles too: a throw tries the inner one, then the
+		// outer one
+		labels[0] = cx.recs[cg.r.IntN(len(cx.recs))]
+	}
 	if cg.f.act && cg.f.lab && !cx.inRecover && cg.chance(0.25) {
 		// `k:X %{L} //{L} r:Y {code}`: the recovery expression shares the label scope of the guarded expression (one
 		// parameter list for its code blocks), and the throw stands directly in the labelled sequence, so the recovery
@@ -516,6 +521,18 @@ func (cg *caseGen) rec(cx ectx) (*pvcase.Expr, bool) {
 			rexp = un(pvcase.KAct, seqOf(rest, &pvcase.Expr{Kind: pvcase.KAndc}))
 		}
 		return &pvcase.Expr{Kind: pvcase.KRec, Kids: []*pvcase.Expr{body, rexp}, Labels: labels}, true
+	}
+	if cg.f.memoShapes && cg.chance(0.35) {
+		// two throw sites of one label at the same offset under one handler, the recovery expression failing the first
+		// time: the second throw finds it in the memo table (Memoize) and must not evaluate it again
+		thr := func() *pvcase.Expr { return &pvcase.Expr{Kind: pvcase.KThr, Label: labels[0]} }
+		ch := cg.newChoice()
+		ch.Kids = []*pvcase.Expr{seqOf(un(pvcase.KAnd, cg.operand()), thr()), thr()}
+		if cg.chance(0.5) {
+			ch.Kids = append(ch.Kids, cg.operand())
+		}
+		rexp := seqOf(cg.operand(), cg.nonEmptyLit())
+		return &pvcase.Expr{Kind: pvcase.KRec, Kids: []*pvcase.Expr{ch, rexp}, Labels: labels}, true
 	}
 	in := cx
 	in.recs = append(append([]string(nil), cx.recs...), labels...)
@@ -543,6 +560,9 @@ func (cg *caseGen) rec(cx ectx) (*pvcase.Expr, bool) {
 	switch x := cg.r.IntN(10); {
 	case x < 3:
 		rexp = cg.recoverSkip()
+	case x < 5:
+		// a recovery expression that usually does not match: the throw goes on to the next handler, or fails
+		rexp = cg.nonEmptyLit()
 	default:
 		rexp, _ = cg.expr(rcx)
 	}
@@ -582,6 +602,34 @@ func (cg *caseGen) stateShape(cx ectx) (*pvcase.Expr, bool) {
 	y := cg.nonEmptyLit()
 	z := cg.nonEmptyLit()
 	xc := func() *pvcase.Expr { return x.Clone() }
+	if cg.f.thr && cg.chance(0.5) {
+		// #{} ((%{L} //{L} y) //{L} z)? #{} x : a throw that every handler (two for the same label, nested) fails to
+		// recover from, under an option, between state changes: the store must be what it was
+		l := pickStr(cg.r, throwLabels)
+		thr := &pvcase.Expr{Kind: pvcase.KThr, Label: l}
+		var body *pvcase.Expr = thr
+		if cg.chance(0.5) {
+			body = seqOf(stc(), thr)
+		}
+		inner := &pvcase.Expr{Kind: pvcase.KRec, Kids: []*pvcase.Expr{body, y}, Labels: []string{l}}
+		outer := &pvcase.Expr{Kind: pvcase.KRec, Kids: []*pvcase.Expr{inner, z}, Labels: []string{l}}
+		var guard *pvcase.Expr
+		switch cg.r.IntN(3) {
+		case 0:
+			guard = un(pvcase.KOpt, outer)
+		case 1:
+			guard = un(pvcase.KStar, seqOf(outer, xc()))
+		default:
+			ch := cg.newChoice()
+			ch.Kids = []*pvcase.Expr{outer, xc()}
+			guard = ch
+		}
+		k := []*pvcase.Expr{stc(), guard, stc()}
+		if cg.f.pred {
+			k = append(k, &pvcase.Expr{Kind: pvcase.KAndc})
+		}
+		return seqOf(k...), true
+	}
 	switch cg.r.IntN(8) {
 	case 0: // ( #{} x y / #{} x z )
 		ch := cg.newChoice()
